@@ -1,1 +1,558 @@
-"""(job kinds registered here)"""
+"""History-model jobs: C11 (setup nodes), C15 (no state leaks / single-use executors), C18 (cache restart)."""
+from __future__ import annotations
+
+import asyncio
+import copy
+import os
+import pickle
+import random
+import shutil
+import tempfile
+import warnings
+
+import networkx as nx
+
+from . import bootstrap as B
+from . import probes, spec as S
+from .jobs import REGISTRY, Collector, job
+from .seljobs import mk_sel_spec
+from .sym import Sym, same, short
+
+
+def do(d, thunk_sync, thunk_async):
+    from tawazi import AsyncDAG
+
+    if isinstance(d, AsyncDAG):
+        return asyncio.run(thunk_async())
+    return thunk_sync()
+
+
+def observed(log):
+    ent = {}
+    vals = {}
+    for e in log:
+        if e["kind"] == "FENTER":
+            ent[e["node"]] = ent.get(e["node"], 0) + 1
+        if e["kind"] == "FEXIT" and e.get("ok"):
+            vals[e["node"]] = e["value"]
+    return ent, vals
+
+
+def op_call(d, args):
+    async def a():
+        return await d(*args)
+
+    return do(d, lambda: d(*args), a)
+
+
+def op_exec(d, kw, args):
+    ex = d.executor(**kw)
+
+    async def a():
+        return await ex(*args)
+
+    return do(d, lambda: ex(*args), a)
+
+
+def op_setup(d, kw):
+    async def a():
+        return await d.setup(**kw)
+
+    return do(d, lambda: d.setup(**kw), a)
+
+
+# ------------------------------------------------------------------------------------------------ C11
+def gen_hist_spec(rng):
+    n = rng.randint(3, 7)
+    edges = [(a, b) for b in range(n) for a in range(b) if rng.random() < 0.4]
+    g = nx.DiGraph()
+    g.add_nodes_from(range(n))
+    g.add_edges_from(edges)
+    setup = set()
+    for i in range(n):
+        if all(j in setup for j in g.predecessors(i)) and rng.random() < 0.55 and len(setup) < 4:
+            setup.add(i)
+    if not setup:
+        setup.add(0)
+        edges = [(a, b) for (a, b) in edges if b != 0]
+    sp = mk_sel_spec(n, edges, rng, setup=setup, with_param={i for i in range(n) if i not in setup and rng.random() < 0.4})
+    # reuse of one setup function with different constants
+    for i in sorted(setup):
+        sp["nodes"][i]["args"].append(["c", "k%d" % i])
+    if len(setup) >= 2 and rng.random() < 0.5:
+        a, b = sorted(setup)[:2]
+        sp["nodes"][b]["fn"] = sp["nodes"][a]["fn"]
+        del sp["fns"]["f%d" % b]
+    sp["is_async"] = rng.random() < 0.4
+    return sp, setup
+
+
+def c11_history(col, rng, hidx, jobref=None):
+    pid = "C11"
+    sp, setup = gen_hist_spec(rng)
+    plain = S.make_fns(sp)
+    ids = S.node_ids(sp)
+    n = len(ids)
+    d0, _e, _p = S.build_tawazi(sp, plain=plain)
+    insts = {0: copy.deepcopy(d0) if rng.random() < 0.5 else d0}
+    model = {0: {}}
+    hist = []
+    rp = {"kind": "rerun_job", "job": dict(jobref or {}, n_histories=hidx + 1), "source": S.render(sp), "setup": [ids[i] for i in sorted(setup)]}
+    total_setup_runs = {0: {}}
+    for step in range(rng.randint(3, 9)):
+        k = rng.choice(list(insts))
+        d, m = insts[k], model[k]
+        op = rng.choice(["call", "call", "exec", "exec", "setup", "setup_t", "copy"])
+        if op == "copy":
+            j = max(insts) + 1
+            insts[j] = copy.deepcopy(d)
+            model[j] = dict(m)
+            total_setup_runs[j] = dict(total_setup_runs[k])
+            hist.append(("deepcopy", k, j))
+            col.counters["c11_deepcopies"] += 1
+            continue
+        args = [Sym("arg", hidx, step)] if rng.random() < 0.8 else []
+        kw = {}
+        if op == "call":
+            sel = set(range(n))
+            thunk = lambda: op_call(d, args)  # noqa: E731
+        elif op == "exec":
+            ts = rng.sample(range(n), rng.randint(1, min(3, n)))
+            kw = {"target_nodes": [ids[i] for i in ts]}
+            sel = S.closure(sp, None, None, ts)
+            thunk = lambda: op_exec(d, kw, args)  # noqa: E731
+        elif op == "setup":
+            sel = set(setup)
+            thunk = lambda: op_setup(d, {})  # noqa: E731
+        else:
+            ts = rng.sample(range(n), rng.randint(1, 2))
+            kw = {"target_nodes": [ids[i] for i in ts]}
+            sel = S.closure(sp, None, None, ts) & set(setup)
+            thunk = lambda: op_setup(d, kw)  # noqa: E731
+        hist.append((op, k, S.jsonable(kw)))
+        B.reset_log()
+        probes.reset_counts()
+        res = probes.run_op(op, thunk)
+        log = B.snapshot()
+        ent, vals = observed(log)
+        col.evaluations += 1
+        col.counters["c11_ops"] += 1
+        rp2 = dict(rp, history=list(hist))
+        if res[0] != "ok":
+            col.violation(pid, "operation_raised", dict(op=op, exc=repr(res[1])[:300], history=hist, source=S.render(sp)), rp2)
+            return
+        exp_run = {ids[i] for i in sel if i not in m}
+        got = set(ent)
+        for x, c in ent.items():
+            if x in ids and ids.index(x) in setup:
+                tr = total_setup_runs[k]
+                tr[x] = tr.get(x, 0) + c
+                col.counters["c11_setup_entries"] += c
+                if tr[x] > 1:
+                    col.violation(pid, "setup_node_ran_more_than_once_on_one_instance", dict(node=x, times=tr[x], history=hist, source=S.render(sp)), rp2)
+        if got != exp_run or any(c != 1 for c in ent.values()):
+            extra_setup = [x for x in got - exp_run if x in ids and ids.index(x) in setup]
+            mech = "ran_setup_node_the_selection_does_not_need" if extra_setup and op in ("exec", "setup_t", "setup") else "executed_set_differs_from_model"
+            col.violation(pid, mech, dict(op=op, selection=S.jsonable(kw), executed=sorted(ent.items()), expected=sorted(exp_run),
+                                          already_set_up=sorted(ids[i] for i in m), history=hist, source=S.render(sp)), rp2)
+        for i in sel:
+            if i in setup and i not in m:
+                if ids[i] in vals:
+                    m[i] = vals[ids[i]]
+                else:
+                    col.violation(pid, "setup_node_in_selection_did_not_run", dict(node=ids[i], op=op, history=hist), rp2)
+        if op in ("call", "exec"):
+            ref = S.run_reference(sp, args, plain, enabled=sel, env_values=dict(m))
+            if ref[0] == "ok":
+                col.counters["c11_value_checks"] += 1
+                if not same(ref[1].result, res[1]):
+                    col.violation(pid, "later_execution_does_not_see_first_setup_value", dict(
+                        op=op, expected=short(ref[1].result, 400), got=short(res[1], 400), history=hist, source=S.render(sp)), rp2)
+    col.hashes.add(S.spec_hash({"s": S.render(sp), "h": S.jsonable(hist)}))
+    if hidx % 40 == 0:
+        col.sample(dict(source=S.render(sp), setup=[ids[i] for i in sorted(setup)], is_async=sp["is_async"], history=S.jsonable(hist)))
+
+
+def c11_illegal(col, rng):
+    """setup node depending on a non-setup node / on a DAG argument must be rejected at build."""
+    pid = "C11"
+    for variant in ("non_setup_dep", "dag_arg"):
+        n = 3
+        if variant == "non_setup_dep":
+            sp = mk_sel_spec(n, [(0, 1), (1, 2)], rng, setup={1})
+        else:
+            sp = mk_sel_spec(n, [(0, 1)], rng, setup={2}, with_param={2})
+        col.evaluations += 1
+        col.counters["c11_illegal_build_cases"] += 1
+        try:
+            S.build_tawazi(sp)
+            col.violation(pid, "illegal_setup_dependency_not_rejected(%s)" % variant, dict(source=S.render(sp)), {"kind": "c11_illegal"})
+        except BaseException as e:  # noqa: BLE001
+            if isinstance(e, (KeyboardInterrupt, SystemExit)):
+                raise
+            col.counters["c11_illegal_build_rejected"] += 1
+
+
+@job("hist11")
+def job_hist11(j):
+    rng = random.Random(j["seed"])
+    col = Collector()
+    for h in range(j["n_histories"]):
+        c11_history(col, rng, h, jobref=j)
+    c11_illegal(col, rng)
+    return col.result()
+
+
+def _replay_c11(j, rp):
+    col = Collector(max_per_mech=20)
+    rng = random.Random(3)
+    for h in range(30):
+        c11_history(col, rng, h)
+    return col.result()
+
+
+REGISTRY["replay:c11_case"] = _replay_c11
+REGISTRY["replay:c11_illegal"] = lambda j, rp: (lambda col: (c11_illegal(col, random.Random(0)), col.result())[1])(Collector())
+
+
+# ------------------------------------------------------------------------------------------------ C15
+def gen_leak_spec(rng):
+    from .sched import gen_shape
+
+    sp = gen_shape(rng, nmin=3, nmax=7, flags=True, reuse=True, mc_max=3)
+    sp["params"] = ["x", "y"]
+    sp["defaults"] = {"y": ("D", 1)}
+    for nd in sp["nodes"]:
+        if rng.random() < 0.3:
+            nd["args"].append(["p", "y"])
+    if not any(a == ["p", "x"] for nd in sp["nodes"] for a in nd["args"]):
+        sp["nodes"][0]["args"].append(["p", "x"])
+    sp["is_async"] = rng.random() < 0.3
+    return sp
+
+
+def c15_history(col, rng, hidx, jobref=None):
+    from tawazi.errors import TawaziArgumentException, TawaziUsageError
+
+    pid = "C15"
+    sp = gen_leak_spec(rng)
+    plain = S.make_fns(sp)
+    ids = S.node_ids(sp)
+    n = len(ids)
+    d, _e, _p = S.build_tawazi(sp, plain=plain)
+    keys0 = set(d.results.keys())
+    hist = []
+    rp = {"kind": "rerun_job", "job": dict(jobref or {}, n_histories=hidx + 1), "source": S.render(sp)}
+    nonce = [0]
+
+    def fresh_args(partial=False):
+        nonce[0] += 1
+        a = [Sym("arg", hidx, nonce[0], "x")]
+        if not partial:
+            a.append(Sym("arg", hidx, nonce[0], "y"))
+        return a
+
+    def checked_call(label, args):
+        ref = S.run_reference(sp, args, plain)
+        B.reset_log()
+        probes.reset_counts()
+        res = probes.run_op(label, lambda: op_call(d, args))
+        log = B.snapshot()
+        ent, _v = observed(log)
+        col.evaluations += 1
+        col.counters["c15_checked_calls"] += 1
+        rp2 = dict(rp, history=S.jsonable(hist))
+        if ref[0] != "ok":
+            return
+        if res[0] != "ok":
+            col.violation(pid, "call_after_history_raised", dict(exc=repr(res[1])[:300], history=S.jsonable(hist), source=S.render(sp)), rp2)
+            return
+        if not same(ref[1].result, res[1]):
+            col.violation(pid, "call_outcome_depends_on_earlier_history", dict(
+                expected=short(ref[1].result, 400), got=short(res[1], 400), history=S.jsonable(hist), source=S.render(sp)), rp2)
+        exp = {ids[i] for i in range(n) if ref[1].active.get(i)}
+        if set(ent) != exp or any(c != 1 for c in ent.values()):
+            col.violation(pid, "call_executed_set_depends_on_earlier_history", dict(
+                executed=sorted(ent.items()), expected=sorted(exp), history=S.jsonable(hist), source=S.render(sp)), rp2)
+        if set(d.results.keys()) != keys0:
+            col.violation(pid, "dag_level_results_gained_or_lost_keys", dict(
+                gained=sorted(set(d.results.keys()) - keys0)[:5], lost=sorted(keys0 - set(d.results.keys()))[:5], history=S.jsonable(hist)), rp2)
+
+    def run_executor_twice(fail_first):
+        ts = rng.sample(range(n), rng.randint(1, min(3, n)))
+        kw = {"target_nodes": [ids[i] for i in ts]}
+        sel = S.closure(sp, None, None, ts)
+        ex = d.executor(**kw)
+        args1 = fresh_args()
+
+        async def a1():
+            return await ex(*args1)
+
+        ref1 = S.run_reference(sp, args1, plain, enabled=sel)
+        if ref1[0] != "ok":
+            return
+        fault = None
+        if fail_first:
+            cands = [ids[i] for i in sel if ref1[1].active.get(i)]
+            if not cands:
+                return
+            fault = rng.choice(cands)
+            probes.State.faults = {fault}
+        B.reset_log()
+        try:
+            r1 = probes.run_op("executor_run_1", lambda: do(d, lambda: ex(*args1), a1))
+        finally:
+            probes.State.faults = set()
+        hist.append(("executor_first_run", S.jsonable(kw), "fails at %s" % fault if fault else "ok"))
+        if fail_first and r1[0] == "ok":
+            return
+        if not fail_first and r1[0] != "ok":
+            col.violation(pid, "executor_first_run_raised", dict(exc=repr(r1[1])[:300], selection=S.jsonable(kw), source=S.render(sp)), rp)
+            return
+        args2 = fresh_args()
+
+        async def a2():
+            return await ex(*args2)
+
+        ref2 = S.run_reference(sp, args2, plain, enabled=sel)
+        B.reset_log()
+        probes.reset_counts()
+        r2 = probes.run_op("executor_run_2", lambda: do(d, lambda: ex(*args2), a2))
+        log = B.snapshot()
+        ent, _v = observed(log)
+        col.evaluations += 1
+        col.counters["c15_executor_reruns_after_%s" % ("failure" if fail_first else "success")] += 1
+        hist.append(("executor_second_run", "raised %s" % type(r2[1]).__name__ if r2[0] != "ok" else "returned"))
+        rp2 = dict(rp, history=S.jsonable(hist))
+        if r2[0] != "ok":
+            if isinstance(r2[1], TawaziUsageError):
+                col.counters["c15_rerun_refused"] += 1
+                return
+            col.violation(pid, "executor_rerun_raised_internal_error", dict(exc=repr(r2[1])[:300], after="failure" if fail_first else "success",
+                                                                           selection=S.jsonable(kw), source=S.render(sp)), rp2)
+            return
+        col.counters["c15_rerun_ran"] += 1
+        if ref2[0] != "ok":
+            return
+        exp = {ids[i] for i in sel if ref2[1].active.get(i)}
+        if set(ent) != exp or not same(ref2[1].result, r2[1]):
+            col.violation(pid, "executor_rerun_used_partially_consumed_graph", dict(
+                after="failure" if fail_first else "success", executed=sorted(ent), complete_selection=sorted(exp),
+                expected=short(ref2[1].result, 300), got=short(r2[1], 300), selection=S.jsonable(kw), source=S.render(sp)), rp2)
+
+    for _step in range(rng.randint(2, 8)):
+        op = rng.choice(["call", "call_partial", "exec_ok", "exec_create", "compose", "config", "fail_node", "missing_arg", "surplus_arg",
+                         "exec_retry_after_failure", "exec_rerun_after_success"])
+        if op == "call":
+            hist.append(("call", "full args"))
+            checked_call("call", fresh_args())
+        elif op == "call_partial":
+            hist.append(("call", "defaulted y omitted"))
+            checked_call("call_partial", fresh_args(partial=True))
+        elif op == "exec_ok":
+            ts = rng.sample(range(n), rng.randint(1, min(3, n)))
+            args = fresh_args()
+            r = probes.run_op("exec", lambda: op_exec(d, {"target_nodes": [ids[i] for i in ts]}, args))
+            hist.append(("executor", [ids[i] for i in ts], r[0]))
+        elif op == "exec_create":
+            d.executor(target_nodes=[ids[rng.randrange(n)]])
+            hist.append(("executor_created_not_run",))
+        elif op == "compose":
+            outs = [ids[i] for i in rng.sample(range(n), rng.randint(1, 2))]
+            try:
+                with warnings.catch_warnings():
+                    warnings.simplefilter("ignore")
+                    c = d.compose("cmp%d" % nonce[0], ..., outs)
+                args = fresh_args()
+                r = probes.run_op("composed", lambda: op_call(c, args))
+                hist.append(("compose+run", outs, r[0]))
+            except ValueError as e:
+                hist.append(("compose", outs, "ValueError %s" % str(e)[:40]))
+        elif op == "config":
+            i = rng.randrange(n)
+            conf = {"nodes": {ids[i]: {"priority": rng.randint(-3, 9)}}, "max_concurrency": rng.randint(1, 4)}
+            try:
+                d.config_from_dict(conf)
+                hist.append(("config_from_dict", conf))
+            except ValueError as e:
+                hist.append(("config_from_dict", "ValueError %s" % str(e)[:40]))
+        elif op == "fail_node":
+            args = fresh_args()
+            ref = S.run_reference(sp, args, plain)
+            if ref[0] != "ok":
+                continue
+            cands = [ids[i] for i in range(n) if ref[1].active.get(i)]
+            if not cands:
+                continue
+            f = rng.choice(cands)
+            probes.State.faults = {f}
+            try:
+                r = probes.run_op("failing_call", lambda: op_call(d, args))
+            finally:
+                probes.State.faults = set()
+            hist.append(("failing_call", f, r[0]))
+        elif op == "missing_arg":
+            r = probes.run_op("missing_arg", lambda: op_call(d, []))
+            hist.append(("call_missing_required_arg", "raised %s" % type(r[1]).__name__ if r[0] != "ok" else "ok"))
+            if r[0] == "ok" or not isinstance(r[1], TawaziArgumentException):
+                col.counters["c15_missing_arg_not_argument_exception"] += 1
+        elif op == "surplus_arg":
+            r = probes.run_op("surplus_arg", lambda: op_call(d, fresh_args() + [1]))
+            hist.append(("call_surplus_arg", "raised %s" % type(r[1]).__name__ if r[0] != "ok" else "ok"))
+        elif op == "exec_retry_after_failure":
+            run_executor_twice(True)
+        elif op == "exec_rerun_after_success":
+            run_executor_twice(False)
+    hist.append(("final_call",))
+    checked_call("final_call", fresh_args(partial=rng.random() < 0.4))
+    col.hashes.add(S.spec_hash({"s": S.render(sp), "h": S.jsonable(hist)}))
+    if hidx % 40 == 0:
+        col.sample(dict(source=S.render(sp), history=S.jsonable(hist), is_async=sp["is_async"]))
+
+
+@job("hist15")
+def job_hist15(j):
+    rng = random.Random(j["seed"])
+    col = Collector()
+    for h in range(j["n_histories"]):
+        c15_history(col, rng, h, jobref=j)
+    return col.result()
+
+
+def _replay_c15(j, rp):
+    col = Collector(max_per_mech=20)
+    rng = random.Random(5)
+    for h in range(60):
+        c15_history(col, rng, h)
+    return col.result()
+
+
+REGISTRY["replay:c15_case"] = _replay_c15
+
+
+# ------------------------------------------------------------------------------------------------ C18
+def c18_case(col, rng, cidx, tmpdir, jobref=None):
+    pid = "C18"
+    from .sched import gen_shape
+
+    sp = gen_shape(rng, nmin=3, nmax=7, flags=False, reuse=True, mc_max=3)
+    sp["is_async"] = rng.random() < 0.3
+    plain = S.make_fns(sp)
+    ids = S.node_ids(sp)
+    n = len(ids)
+    g = S.site_graph(sp)
+    d, _e, _p = S.build_tawazi(sp, plain=plain)
+    path = os.path.join(tmpdir, "c%d.pkl" % cidx)
+    args = [Sym("arg", cidx)]
+    mode = rng.choice(["whole", "targets", "cache_deps_of"])
+    kw1 = {"cache_in": path}
+    if mode == "targets":
+        ts = rng.sample(range(n), rng.randint(1, min(3, n)))
+        kw1["target_nodes"] = [ids[i] for i in ts]
+        sel1 = S.closure(sp, None, None, ts)
+    elif mode == "cache_deps_of":
+        nn = [rng.randrange(n)]
+        kw1["cache_deps_of"] = [ids[i] for i in nn]
+        sel1 = S.closure(sp, None, None, nn)
+    else:
+        sel1 = set(range(n))
+    rp = {"kind": "rerun_job", "job": dict(jobref or {}, n_cases=cidx + 1), "source": S.render(sp), "caching": S.jsonable(kw1)}
+    B.reset_log()
+    r1 = probes.run_op("caching_run", lambda: op_exec(d, kw1, args))
+    col.evaluations += 1
+    if r1[0] != "ok":
+        col.violation(pid, "caching_run_raised", dict(exc=repr(r1[1])[:300], caching=S.jsonable(kw1), source=S.render(sp)), rp)
+        return
+    try:
+        with open(path, "rb") as f:
+            cached = pickle.load(f)  # noqa: S301
+    except Exception as e:  # noqa: BLE001
+        col.violation(pid, "cache_file_unreadable", dict(exc=repr(e)[:200]), rp)
+        return
+    cached_sites = {i for i in range(n) if ids[i] in cached}
+    col.counters["c18_cache_files"] += 1
+    if mode == "cache_deps_of":
+        anc = set()
+        for i in nn:
+            anc |= nx.ancestors(g, i)
+        col.counters["c18_cache_deps_of_files"] += 1
+        if not anc <= cached_sites or any(i in cached_sites for i in nn):
+            col.violation(pid, "cache_deps_of_file_content_wrong", dict(
+                n=[ids[i] for i in nn], file_has=sorted(ids[i] for i in cached_sites), ancestors=sorted(ids[i] for i in anc), source=S.render(sp)), rp)
+    # restart
+    rmode = "cache_deps_of" if mode == "cache_deps_of" else rng.choice(["whole", "same", "targets"])
+    kw2 = {"from_cache": path}
+    if rmode == "cache_deps_of":
+        kw2["cache_deps_of"] = kw1["cache_deps_of"]
+        sel2 = sel1
+    elif rmode == "same" and mode == "targets":
+        kw2["target_nodes"] = kw1["target_nodes"]
+        sel2 = sel1
+    elif rmode == "targets":
+        ts = rng.sample(range(n), rng.randint(1, min(3, n)))
+        kw2["target_nodes"] = [ids[i] for i in ts]
+        sel2 = S.closure(sp, None, None, ts)
+    else:
+        sel2 = set(range(n))
+    d2, _e, _p = S.build_tawazi(sp, plain=plain)  # "a later execution of the same DAG": a fresh process would rebuild it
+    dd = d2 if rng.random() < 0.5 else d
+    B.reset_log()
+    probes.reset_counts()
+    r2 = probes.run_op("restart_run", lambda: op_exec(dd, kw2, args))
+    log = B.snapshot()
+    ent, _v = observed(log)
+    col.evaluations += 1
+    col.counters["c18_restarts"] += 1
+    rp2 = dict(rp, restart=S.jsonable(kw2))
+    if r2[0] != "ok":
+        col.violation(pid, "restart_from_cache_raised", dict(exc=repr(r2[1])[:300], caching=S.jsonable(kw1), restart=S.jsonable(kw2), source=S.render(sp)), rp2)
+        return
+    recomputed = sorted(x for x in ent if x in cached)
+    if recomputed:
+        col.violation(pid, "restart_recomputed_cached_nodes", dict(recomputed=recomputed, cached=sorted(k for k in cached if k in ids),
+                                                                  caching=S.jsonable(kw1), restart=S.jsonable(kw2), source=S.render(sp)), rp2)
+    exp_run = {ids[i] for i in sel2 if i not in cached_sites}
+    if set(ent) != exp_run and not recomputed:
+        col.violation(pid, "restart_executed_set_wrong", dict(executed=sorted(ent), expected=sorted(exp_run), caching=S.jsonable(kw1), restart=S.jsonable(kw2), source=S.render(sp)), rp2)
+    if rmode == "cache_deps_of":
+        col.counters["c18_cache_deps_of_restarts"] += 1
+    # value: the un-cached reference for the restart's selection (cached values are the same terms: same arguments)
+    ref = S.run_reference(sp, args, plain, enabled=sel2 | {i for i in cached_sites})
+    if ref[0] == "ok":
+        col.counters["c18_value_checks"] += 1
+        exp = ref[1].result
+        if not same(exp, r2[1]):
+            col.violation(pid, "restart_value_differs_from_uncached_run", dict(expected=short(exp, 300), got=short(r2[1], 300), caching=S.jsonable(kw1), restart=S.jsonable(kw2), source=S.render(sp)), rp2)
+    col.hashes.add(S.spec_hash({"s": S.render(sp), "k1": {k: v for k, v in S.jsonable(kw1).items() if k != "cache_in"},
+                                "k2": {k: v for k, v in S.jsonable(kw2).items() if k != "from_cache"}}))
+    if cidx % 40 == 0:
+        col.sample(dict(source=S.render(sp), caching={k: v for k, v in S.jsonable(kw1).items() if k != "cache_in"}, cache_file_keys=sorted(k for k in cached if k in ids),
+                        restart={k: v for k, v in S.jsonable(kw2).items() if k != "from_cache"}, restart_executed=sorted(ent)))
+
+
+@job("cache18")
+def job_cache18(j):
+    rng = random.Random(j["seed"])
+    col = Collector()
+    tmpdir = tempfile.mkdtemp(prefix="twzcache_")
+    try:
+        for c in range(j["n_cases"]):
+            c18_case(col, rng, c, tmpdir, jobref=j)
+    finally:
+        shutil.rmtree(tmpdir, ignore_errors=True)
+    return col.result()
+
+
+def _replay_c18(j, rp):
+    col = Collector(max_per_mech=20)
+    rng = random.Random(7)
+    tmpdir = tempfile.mkdtemp(prefix="twzcache_")
+    try:
+        for c in range(60):
+            c18_case(col, rng, c, tmpdir)
+    finally:
+        shutil.rmtree(tmpdir, ignore_errors=True)
+    return col.result()
+
+
+REGISTRY["replay:c18_case"] = _replay_c18
